@@ -169,7 +169,10 @@ def acquire_mapping(v, tier):
     lifetime and selectors inside the entry's; IKE_SAs are re-used; an unknown index is ignored."""
     n = 0
     # (the last two rounds: an IKE_SA whose own lifetime is far shorter than the entries' - the CHILD_SA lifetime is the entry's all the same)
-    for entries, ike_life in (({1}, None), ({1, 2}, None), ({3}, None), ({1, 2, 3}, None), ({4}, None), ({1, 4}, None), ({5}, None), ({3, 5}, None), ({1, 2}, 2), ({3, 5}, 2)):
+    # (the last rounds: an IKE_SA whose own lifetime is far shorter than the entries'; an IKE_SA that the PEER started - the daemon is its responder, yet the
+    #  initiator of every exchange its ACQUIREs start: TSi is its own side all the same)
+    for entries, ike_life, peer_first in (({1}, None, False), ({1, 2}, None, False), ({3}, None, False), ({1, 2, 3}, None, False), ({4}, None, False), ({1, 4}, None, False),
+                                          ({5}, None, False), ({3, 5}, None, False), ({1, 2}, 2, False), ({3, 5}, 2, False), ({1, 2}, None, True), ({3, 5}, None, True), ({4}, None, True)):
         for e in sorted(entries):
             peer, p = ENTRY[e]
             v6 = peer == 'C'
@@ -179,6 +182,14 @@ def acquire_mapping(v, tier):
                 w.v6 = v6
                 my_net = ipaddress.ip_network(p.get('my_subnet', wd.addr_of('A', v6)))
                 peer_net = ipaddress.ip_network(p.get('peer_subnet', wd.addr_of(peer, v6)))
+                if peer_first:
+                    m0, cur0 = w.acquire(peer, peer='A', index=e, proto=PROTO[p['ip_proto']] or 6, sel_saddr=str(peer_net[0]), sel_daddr=str(my_net[0]),
+                                         sport=p.get('peer_port', 0) or 80, dport=p.get('my_port', 0) or 1234), peer
+                    while m0 is not None:
+                        nxt0 = 'A' if cur0 == peer else peer
+                        m0, cur0 = w.dispatch(nxt0, m0, cur0), nxt0
+                    if [x.state.name for x in w.ctl['A'].ike_sas] != ['ESTABLISHED'] or w.ctl['A'].ike_sas[0].is_initiator:
+                        raise common.MachineryError(f'the peer-initiated IKE_SA of the acquire-mapping scenario did not come up: {[x.state.name for x in w.ctl["A"].ike_sas]}')
                 for variant, (sa_, da_) in enumerate(((my_net[0], peer_net[0]), (my_net[-1], peer_net[-1]), (my_net[len(list([0])) and 0], peer_net[min(5, peer_net.num_addresses - 1)]))):
                     before = len(w.ctl['A'].ike_sas)
                     req = w.acquire('A', peer=peer, index=p['index'], proto=PROTO[p['ip_proto']] or 6, sel_saddr=str(sa_), sel_daddr=str(da_),
@@ -187,7 +198,7 @@ def acquire_mapping(v, tier):
                     if req is None:
                         v.violation(f'ACQUIRE for installed policy index {p["index"]} produced no request', {'entries': sorted(entries)}, signature={'component': 'acquire:none'})
                         break
-                    if variant > 0 and len(w.ctl['A'].ike_sas) != before:
+                    if (variant > 0 or peer_first) and (len(w.ctl['A'].ike_sas) != before or W.dec_header(bytes(req))['xchg'] != W.CREATE_CHILD_SA):
                         v.violation('a second ACQUIRE towards the same peer did not re-use the IKE_SA', {}, signature={'component': 'acquire:reuse'})
                     # bring it to the message that carries TS / SA
                     h = W.dec_header(bytes(req))
